@@ -71,7 +71,16 @@ _SPECIAL_POS = [10 ** 6, 3 * 10 ** 6, 10 ** 7, 10 ** 8, 10 ** 9, 10 ** 10,
 # ----------------------------------------------------------------------------
 # generator
 # ----------------------------------------------------------------------------
-def _shape_st():
+def _shape_st(big=False):
+    small = _shape_small()
+    if not big:
+        return small
+    # what a TdlChannel asks for: (taps, Nr, Nt)
+    return st.one_of(small, small, small, small, st.sampled_from(
+        [[20, 4, 4], [15, 2, 2], [12, 4, 2], [64], [6, 3, 3]]))
+
+
+def _shape_small():
     return st.one_of(
         st.none(), st.none(),
         st.integers(1, 3),
@@ -96,9 +105,13 @@ def _fdts(draw):
     any Doppler frequency and sampling interval)"""
     cls = draw(st.sampled_from(["wide", "high", "high", "wide", "high",
                                 "zero", "wide", "high", "special", "high",
-                                "under"]))
+                                "under", "tiny"]))
     if cls == "zero":
         return 0.0
+    if cls == "tiny":
+        # slow fading sampled fast (Fd = 5 Hz, Ts = 1 ns): not static
+        return float(draw(st.floats(1.0, 9.999)) *
+                     10.0 ** -draw(st.integers(6, 12)))
     if cls == "under":
         return draw(st.one_of(
             st.sampled_from([1.0, 2.0, 10.0, 0.75, 1.5]),
@@ -124,11 +137,12 @@ def _history(draw, tier):
     fdts = draw(_fdts())
     fd = fdts / ts
     L = draw(st.one_of(st.integers(1, 16), st.sampled_from([1, 2, 8, 16])))
-    shape = draw(_shape_st())
+    shape = draw(_shape_st(big=True))
+    big_shape = isinstance(shape, list) and int(np.prod(shape)) > 24
     seed = draw(seeds)
     start = draw(st.sampled_from(["fresh", "fresh", "fresh", "large",
                                   "large", "special"]))
-    big_n = thorough and draw(st.integers(0, 5)) == 0
+    big_n = thorough and draw(st.integers(0, 5)) == 0 and not big_shape
     max_ops = 20 if thorough else 12
     n_ops = draw(st.integers(1, max_ops))
 
@@ -181,7 +195,7 @@ def _history(draw, tier):
             continue
         if big_n and draw(st.integers(0, 2)) == 0:
             n = draw(_logint(200, 10 ** 5))
-        elif draw(st.integers(0, 19)) == 7:
+        elif draw(st.integers(0, 19)) == 7 and not big_shape:
             n = draw(_logint(200, 5000))      # both tiers: a longer request
         else:
             n = draw(small_n)
@@ -555,6 +569,7 @@ def _check_func(case, ctx):
     rs = np.random.RandomState(case["seed"])
     phi = rs.rand(*((L,) + shp + (1,)))
     psi = rs.rand(*((L,) + shp + (1,)))
+    phi_arg, psi_arg = phi.copy(), psi.copy()
     pos = int(case["start"])
     cur = pos * ts
     generated = 0
@@ -566,9 +581,13 @@ def _check_func(case, ctx):
         generated += n
         tags = _tags(case, pos, n, "func")
         t_in = cur
+        # the caller keeps ONE pair of phase arrays for the whole process
         cur, h = _call(lambda: generate_jakes_samples(
             fd, ts, n, L, shape=_shape_arg(shape), current_time=t_in,
-            phi_l=phi.copy(), psi_l=psi.copy()), tags)
+            phi_l=phi_arg, psi_l=psi_arg), tags)
+        if not (np.array_equal(phi_arg, phi) and np.array_equal(psi_arg, psi)):
+            raise Violation("func_phases_modified", "generate_jakes_samples "
+                            "changed the phase arrays handed to it", tags)
         h = np.asarray(h)
         if h.shape != shp + (n,):
             if h.shape[:-1] == shp:
